@@ -564,6 +564,16 @@ be_filter_eventcb(struct bufferevent *underlying, short what, void *me_)
 	// If our refcount is > 0
 	if (bufev_private->refcnt > 0) {
 
+		if ((what & BEV_EVENT_READING) &&
+		    (what & (BEV_EVENT_EOF|BEV_EVENT_ERROR))) {
+			/* Nothing more is coming: push what the underlying
+			 * bufferevent already received through the filter,
+			 * past the read high watermark, before we say so. */
+			bevf->got_eof = 1;
+			if (evbuffer_get_length(underlying->input))
+				be_filter_read_nolock_(underlying, bevf);
+		}
+
 		/* All we can really to is tell our own eventcb. */
 		bufferevent_run_eventcb_(bev, what, 0);
 	}
